@@ -222,7 +222,8 @@ pub proof fn lemma_tok(ts: Seq<Token>, i: int)
 /// X3: stands for the repository's debug_assert_adjacent! (a `windows(2).all(..)` run-time check)
 #[verifier::external_body]
 pub fn check_adjacent(ts: &[Token]) requires adjacent(ts@) /* [panic] */ {}
-/// C05: token kinds that can hold a letter or a digit outside comments
+/// C05: token kinds that can hold a letter or a digit outside comments (proved in unit `lexer`: a token of any other kind,
+/// comments aside, contains no letter and no digit — `blank_kind` post of Cursor::advance_token, over two trusted Unicode facts)
 pub open spec fn content_kind(k: TokenKind) -> bool { k == TokenKind::Word || k == TokenKind::Int || k == TokenKind::ZeroInt || k == TokenKind::Escaped }
 /// first byte of a token's content (an escaped token's content starts after the backslash)
 pub open spec fn cs(t: Token) -> int { if t.kind == TokenKind::Escaped { t.span.s() + 1 } else { t.span.s() } }
